@@ -35,7 +35,7 @@ def native_eval(h, d, v, order=1):
     fin = bool(np.isfinite(lam).all() and np.isfinite(V).all())
     if not fin:
         return {'finite': False}
-    scale = max(1.0, np.abs(M).max())
+    scale = max(np.abs(M - np.trace(M) / d * np.eye(d)).max(), 1e-300)     # relative to the traceless part: the decomposition is scale invariant
     return {'finite': True, 'residual': float(np.abs(M @ V - V @ np.diag(lam)).max() / scale), 'unitarity': float(np.abs(V.conj().T @ V - np.eye(d)).max()),
             'sorted': bool((np.diff(lam) >= -1e-12 * scale).all())}
 
